@@ -37,6 +37,23 @@ func pastDeadline() bool { return SubDeadline != 0 && time.Now().Unix() > SubDea
 // SetSubDeadline sets the deadline handed to sub processes (called by the CLI).
 func SetSubDeadline(t time.Time) { os.Setenv("VERIF_DEADLINE", strconv.FormatInt(t.Unix(), 10)) }
 
+// SubDeadlineTime returns the deadline currently handed to sub processes (zero: none).
+func SubDeadlineTime() time.Time {
+	if v, err := strconv.ParseInt(os.Getenv("VERIF_DEADLINE"), 10, 64); err == nil && v > 0 {
+		return time.Unix(v, 0)
+	}
+	return time.Time{}
+}
+
+func anyTruncated(rs ...*SubResult) bool {
+	for _, r := range rs {
+		if r != nil && r.Truncated {
+			return true
+		}
+	}
+	return false
+}
+
 // noteTruncated marks the report as not exhaustive if any sub result was cut short.
 func noteTruncated(rep *engine.Report, what string, rs ...*SubResult) {
 	for _, r := range rs {
